@@ -447,3 +447,44 @@ direct = dict(
     dropped=['the user type and its formatter (text length as a ghost; fmt::formatted_size / format_to_n as shims)'], trusted=['fmt::formatted_size and fmt::format_to_n agree on the text of an unchanged object', 'memcpy (CBMC built-in)'],
     assumes=['harness assume: text length within the bound'], allow_assume=True, min_obligations=5)
 UNITS += [direct]
+
+# ------------------------------------------------------------------------------------------ DynamicFormatArgStore::push_back
+DH = 'quill/core/DynamicFormatArgStore.h'
+DFAS_PRELUDE = r'''
+typedef struct DFAS { bool _has_string_related_type; } DFAS;
+size_t g_copies, g_refs;        /* arguments copied into the store's own list / referenced in place */
+void EMPLACE_COPY(DFAS* self) __CPROVER_assigns(g_copies) __CPROVER_ensures(g_copies == OLD(g_copies) + 1);
+void EMPLACE_REF(DFAS* self) __CPROVER_assigns(g_refs) __CPROVER_ensures(g_refs == OLD(g_refs) + 1);
+'''
+
+
+def dfas_unit(tname, using, textual, owned, why):
+    return dict(
+        name='DFAS.push_back[%s]' % tname, primary='C04', props={'C04'}, kind='L',
+        desc='DynamicFormatArgStore::push_back<%s> (the type decode_and_store_arg hands over): %s' % (tname, why),
+        structs=[], prelude=DFAS_PRELUDE + '#define SPEC_TEXTUAL %d\n#define SPEC_OWNED %d\n' % (textual, owned), enforce='DFAS_push_back', replace=['EMPLACE_COPY', 'EMPLACE_REF'],
+        funcs=[dict(src=dict(header=DH, cls='DynamicFormatArgStore', name='push_back'), src_params=['arg'], cfun='DFAS_push_back', sig='void DFAS_push_back(DFAS* self)', cls_c='DFAS',
+                    member_fields=['_has_string_related_type'], constexpr_gxx=using, constexpr_locals=True,
+                    pre_rules=[(r'emplace_arg\(_dynamic_arg_list\.push<stored_type>\(arg\)\)\s*;', 'EMPLACE_COPY(self);', '?'), (r'emplace_arg\(arg\)\s*;', 'EMPLACE_REF(self);', '?')],
+                    contract=r'''
+__CPROVER_requires(__CPROVER_is_fresh(self, sizeof(*self)) && g_copies == 0 && g_refs == 0)
+__CPROVER_assigns(self->_has_string_related_type, g_copies, g_refs)
+__CPROVER_ensures(g_copies + g_refs == 1) /*@ C04 "every decoded argument is handed to the formatter exactly once" */
+__CPROVER_ensures(SPEC_TEXTUAL ==> self->_has_string_related_type) /*@ C04 "an argument whose text can carry arbitrary bytes (char, C string, string, string_view, user / container type) marks the statement for the non-printable-character sanitisation" */
+__CPROVER_ensures(OLD(self->_has_string_related_type) ==> self->_has_string_related_type) /*@ C04 "a later argument never clears the mark set by an earlier one" */
+__CPROVER_ensures(SPEC_OWNED ==> g_copies == 1) /*@ C04 "a decoded argument that does not live in the queue record (a decoded std::string or container / user object is a temporary) is copied into the store: the formatter never reads a dead object" */
+''')],
+        harness='  DFAS* s; DFAS_push_back(s);',
+        dropped=['the fmt argument objects (basic_format_arg, DynamicArgList): which of the two emplace forms is used is kept', 'template instantiated at the named type; if-constexpr arms selected by g++ against the real header, the compile-time declarations of the body (char_type, mapped_type, stored_type) included'],
+        trusted=['fmt: mapped_type_constant classifies the type as g++ evaluates it; DynamicArgList::push copies its argument'], min_obligations=4)
+
+
+UNITS += [
+    dfas_unit('char', 'using T = char;', 1, 0, 'a char argument formats to its byte, which may be non-printable'),
+    dfas_unit('std::string_view', 'using T = std::string_view;', 1, 0, 'what the string / string_view / char-array codecs decode to (points into the queue record)'),
+    dfas_unit('char const*', 'using T = char const*;', 1, 0, 'what the C-string codec decodes to (points into the queue record)'),
+    dfas_unit('std::string', 'using T = std::string;', 1, 1, 'element type rebuilt by the container codecs'),
+    dfas_unit('std::vector<std::string>', 'using T = std::vector<std::string>;', 1, 1, 'a decoded container is a temporary formatted through fmt\'s range formatter'),
+    dfas_unit('uint32_t', 'using T = uint32_t;', 0, 0, 'arithmetic arguments are stored by value and cannot carry a non-printable byte'),
+    dfas_unit('double', 'using T = double;', 0, 0, 'arithmetic arguments are stored by value and cannot carry a non-printable byte'),
+]
